@@ -37,6 +37,15 @@ func genKeyInt(r *core.Run, row int) (string, bool) {
 	return strconv.Itoa(v), false
 }
 
+// floats in several spellings, the two zeros among them: one class of the ladder, equal iff the numbers are equal
+func genKeyFloat(r *core.Run, row int) (string, bool) {
+	if r.Rand.Intn(7) == 0 {
+		return "", true
+	}
+	pool := []string{"0.5", ".5", "0.50", "5e-1", " 0.5", "1.5", "1.50", "0.0", "-0.0", "0e0", "2.5", "-1.5", "1.0", "1e0"}
+	return pool[r.Rand.Intn(len(pool))], false
+}
+
 var keyTextPool = []string{"a", "A", " a ", "b", "B ", "c", "a:[S]b", "b:[S]c", "[N]", "x:y", "", "é", "É"}
 
 func genKeyText(r *core.Run, row int) (string, bool) {
@@ -139,6 +148,10 @@ func runC04(r *core.Run) {
 		if c%7 == 5 {
 			kg = []colGen{genKeyDTWrap, genKeyText}
 			kind = "dtwrap"
+		}
+		if c%7 == 2 {
+			kg = []colGen{genKeyFloat, genKeyText}
+			kind = "floats"
 		}
 		vgen := colGen(genHalf)
 		mixed := rng.Intn(3) == 0
@@ -255,6 +268,25 @@ func runC04(r *core.Run) {
 			}
 			rankStrings(keys, res)
 			add(sql, "bucket:distinct:"+kind, cpu, map[string]interface{}{"kind": "distinct", "keys": keys, "res": cellsJSON(res)}, t.Rows)
+			// aggregates of an outer query over a grouped derived table whose select list is its source's columns in their
+			// order: the outer bucket holds one row per inner bucket - all of them, or the first one only (LIMIT 1)
+			sql2 := "SELECT COUNT(*) AS n FROM (SELECT " + kcols + " FROM (SELECT " + kcols + " FROM t) s GROUP BY " + kcols + ") d"
+			sql3 := "SELECT COUNT(*) AS n FROM (SELECT * FROM (SELECT " + kcols + " FROM t) s GROUP BY " + kcols + " LIMIT 1) d"
+			r2, _, e2 := x.query(sql2 + ";")
+			r3, _, e3 := x.query(sql3 + ";")
+			if e2+e3 != "" {
+				if !errRep[e2+e3] {
+					errRep[e2+e3] = true
+					r.Violation("bucket:groupnest:error:"+e2+e3, sql2+" / "+sql3+" fails with "+e2+e3, map[string]interface{}{"sql": sql2})
+				}
+				break
+			}
+			n2, err2 := strconv.Atoi(r2[0][0].T)
+			n3, err3 := strconv.Atoi(r3[0][0].T)
+			if err2 != nil || err3 != nil {
+				n2, n3 = -1, -1
+			}
+			add(sql2+" / "+sql3, "bucket:groupnest:"+kind, cpu, map[string]interface{}{"kind": "groupnest", "keys": keys, "n": n2, "n1": n3}, t.Rows)
 		case 1: // GROUP BY with aggregates
 			sql := "SELECT " + kcols + ", COUNT(*) AS c, COUNT(v) AS cv, SUM(v) AS s, MIN(v) AS mn, MAX(v) AS mx, AVG(v) AS av, COUNT(DISTINCT 1) AS c1, COUNT(DISTINCT v) AS cd, LISTAGG(id, ',') WITHIN GROUP (ORDER BY id) AS ids, ucnt(v) AS ua, unn(v) AS un, MEDIAN(v) AS md, LISTAGG(id, ',') WITHIN GROUP (ORDER BY id * -1, LEN(k1)) AS ids2 FROM t GROUP BY " + kcols
 			res, _, e := x.query(sql + ";")
